@@ -39,6 +39,8 @@ type spec struct {
 	Reacq  bool // after everything closed: acquire again and deliver one more
 	FailFirst bool // the very first acquire fails (address in use), the following ones succeed
 	ListenRace bool // a further listen on the address races the closes: it must succeed whatever the timing
+	Twice      bool // stream: the closer calls Close twice on its handle (the second call must not disturb the other handle)
+	Cross      bool // stream: a packet handle on the same address is open as well and is closed at an arbitrary moment (its release must not disturb the stream side)
 }
 
 func (s spec) name() string {
@@ -46,7 +48,14 @@ func (s spec) name() string {
 	if s.Packet {
 		k = "packet"
 	}
-	return fmt.Sprintf("%s[close2=%v,n=%d,reacq=%v,failfirst=%v,listenrace=%v]", k, s.Close2, s.N, s.Reacq, s.FailFirst, s.ListenRace)
+	n := fmt.Sprintf("%s[close2=%v,n=%d,reacq=%v,failfirst=%v,listenrace=%v]", k, s.Close2, s.N, s.Reacq, s.FailFirst, s.ListenRace)
+	if s.Twice {
+		n += "[close-twice]"
+	}
+	if s.Cross {
+		n += "[with-packet-handle]"
+	}
+	return n
 }
 
 type obsT struct {
@@ -107,6 +116,9 @@ func streamScenario(s spec) *engine.Scenario {
 			return func() {
 				vrt.Yield("closer")
 				ln.Close()
+				if s.Twice {
+					ln.Close()
+				}
 				c, err := ln.AcceptStream()
 				switch {
 				case err == nil:
@@ -121,6 +133,16 @@ func streamScenario(s spec) *engine.Scenario {
 		t2 := vrt.Spawn("h2", user("h2", ln2))
 		if s.Close2 {
 			ts = append(ts, t2, vrt.Spawn("closer2", closer("h2", ln2)))
+		}
+		if s.Cross {
+			pc, err := m.ListenPacket(addr)
+			if err != nil {
+				panic(err)
+			}
+			ts = append(ts, vrt.Spawn("packet-closer", func() {
+				vrt.Yield("packet-closer")
+				pc.Close()
+			}))
 		}
 		if s.ListenRace {
 			ts = append(ts, vrt.Spawn("late-listener", func() {
@@ -376,6 +398,9 @@ func specs(tier string) []spec {
 			out = append(out, spec{Packet: p, Close2: false, N: 3}, spec{Packet: p, Close2: true, N: 3, Reacq: true})
 		}
 	}
+	out = append(out,
+		spec{Close2: false, N: 2, Twice: true},
+		spec{Close2: false, N: 1, ListenRace: true, Cross: true})
 	return out
 }
 
@@ -406,7 +431,11 @@ func init() {
 			bound = 4
 		}
 		for _, sc := range scenarios(ctx.Tier) {
-			engine.ExploreS(ctx, sc, engine.SConfig{Bound: bound, Shard: ctx.Shard, NShards: ctx.NShards, Deadline: ctx.Deadline})
+			b := bound
+			if strings.Contains(sc.Name, "[with-packet-handle]") {
+				b = bound - 1 // seven threads: one deviation less keeps the quick tier quick
+			}
+			engine.ExploreS(ctx, sc, engine.SConfig{Bound: b, Shard: ctx.Shard, NShards: ctx.NShards, Deadline: ctx.Deadline})
 		}
 	})
 	hk.Replayers["C12"] = func(ctx *engine.Ctx, rp engine.Replay) []*engine.Finding {
